@@ -445,3 +445,26 @@ def no_cross_call_state(ctx: Ctx) -> None:
     ctx.ob("repr_model walks class_type.get_fields(obj) and elides a value only if it equals that field's own default", A("for_inself.context.class_type.get_fields(_):") in a and A("_=self.context.class_type.default_value(_,default=unset)") in a
            and A("if_isnotunsetand(callable(_)and_()==_or_==_):;continue") in a, at=rm, construct="default elision", msg="default elision consults something else than the object's own field defaults")
     ctx.ob("repr_model skips non-init fields", A("ifnot_.init:;continue") in a, at=rm, construct="init only", msg="non-init fields passed to the constructor")
+
+
+@rule("C17.R5")
+def per_operation_configuration(ctx: Ctx) -> None:
+    """In the WSDL mapper a configuration mapping that is handed to per-item code is never updated in place across loop iterations."""
+    n = 0
+    for fi in ctx.repo.funcs_in("xsdata.codegen.mappers.definitions"):
+        for loop in [x for x in walk_no_nested(fi.node) if isinstance(x, ast.For)]:
+            body_assigned = {t.id for st in loop.body for sub in [st, *walk_no_nested(st)] if isinstance(sub, ast.Assign) for t in sub.targets if isinstance(t, ast.Name)}
+            for st in loop.body:
+                for c in [x for x in [st, *walk_no_nested(st)] if isinstance(x, ast.Call)]:
+                    f = c.func
+                    if isinstance(f, ast.Attribute) and f.attr in ("update", "setdefault", "pop", "clear") and isinstance(f.value, ast.Name) and f.value.id not in body_assigned:
+                        name = f.value.id
+                        passed = [x for s2 in loop.body for x in [s2, *walk_no_nested(s2)] if isinstance(x, ast.Call) and x is not c and any(isinstance(a, ast.Name) and a.id == name for a in [*x.args, *[k.value for k in x.keywords]])]
+                        n += 1
+                        ctx.ob(f"{fi.qual.split(':')[1]}: {name}.{f.attr}() inside the loop does not leak into the next item's configuration", not passed, at=fi, node=c,
+                               msg=f"`{name}` lives across iterations and is also passed to {unparse(passed[0].func) if passed else ''}: values set for one operation / message carry over to the following ones (copy it per item)")
+    mb = ctx.repo.func("xsdata.codegen.mappers.definitions:DefinitionsMapper.map_binding")
+    a = asrc(mb)
+    ctx.ob("map_binding builds each operation's configuration from a copy of the binding configuration", A("_=_.copy();_.update(cls.attributes(_.extended_elements))") in a, at=mb, construct="operation config copy",
+           msg="operation attributes are merged into the shared binding configuration")
+    ctx.note("C17.R5 loop-carried updates", n)
